@@ -32,3 +32,52 @@ def specBounds (m : WModel) (text : List Char) : List B :=
   (specScores m text).map fun x => if x > 0 then B.W else B.N
 
 end V
+
+namespace V
+variable {α : Type} [DecidableEq α]
+
+/-! ## tag specification (C06) -/
+
+/-- number of trainable classes: total size of the categories with at least two candidates -/
+def nClass (tags : List (List (List Char))) : Nat :=
+  ((tags.filter (fun c => 2 ≤ c.length)).map List.length).sum
+
+/-- weight that the tag n-grams give class `c` for a token whose last character has index `i`: every tag n-gram that
+occurs ending `rel` characters after the token's last character contributes its class-`c` weight -/
+def tagNgramScore (tbl : List (TagNgramData α)) (seq : List α) (i c : Nat) : Int :=
+  (tbl.map fun d => (d.weights.map fun w =>
+    if i + w.rel < seq.length ∧ d.ngram.isSuffixOf (seq.take (i + w.rel + 1)) then getZ w.weights (c : Int) else 0).sum).sum
+
+def specTagScores (tm : TagModel) (text : List Char) (i : Nat) : List Int :=
+  (List.range (nClass tm.tags)).map fun (c : Nat) =>
+    getZ tm.bias (c : Int) + tagNgramScore tm.charNgrams text i c + tagNgramScore tm.typeNgrams (typesOf text) i c
+
+/-- index of the first maximum of a non-empty list -/
+def firstMax : List Int → Nat
+  | [] => 0
+  | x :: r => if r.all (fun y => y ≤ x) then 0 else firstMax r + 1
+
+/-- the tags of a token given its class scores: per category the first best candidate, the only candidate, or none -/
+def specPickTags : List (List (List Char)) → List Int → List Tag
+  | [], _ => []
+  | cands :: r, scores =>
+    if 2 ≤ cands.length then
+      some (cands.getD (firstMax (scores.take cands.length)) []) :: specPickTags r (scores.drop cands.length)
+    else cands.head? :: specPickTags r scores
+
+/-- the tag model of a surface (token surfaces are unique in a well-formed model) -/
+def tagModelOf (m : WModel) (surface : List Char) : Option TagModel :=
+  m.tagModels.reverse.find? (fun tm => tm.token = surface)
+
+/-- `n_tags` of a predictor with tag prediction -/
+def specNTags (m : WModel) : Nat := m.tagModels.foldl (fun acc tm => max acc tm.tags.length) 0
+
+/-- the tag row of the token `[st, en)`: `specNTags` slots -/
+def specTokenTags (m : WModel) (text : List Char) (st en : Nat) : List Tag :=
+  match tagModelOf m ((text.drop st).take (en - st)) with
+  | none => List.replicate (specNTags m) none
+  | some tm =>
+    let row := specPickTags tm.tags (specTagScores tm text (en - 1))
+    row ++ List.replicate (specNTags m - row.length) none
+
+end V
